@@ -211,7 +211,7 @@ def check_g13(ctx, rep):
         guards = ctx.guards(f, x) or []
         hq = False
         for gc, val, _a, _b in guards:
-            if gc[0] == "bin" and gc[1] == "==" and val is True:
+            if gc[0] == "bin" and ((gc[1] == "==" and val is True) or (gc[1] == "!=" and val is False)):
                 names = {pretty(gc[2]), pretty(gc[3])}
                 if any(n.endswith(".height()") or n.endswith("::height()") for n in names) and any("Rectangle::height()" == n or n == "height()" for n in names):
                     hq = True
